@@ -7,7 +7,7 @@ open LtVerif LtVerif.B LtVerif.Req
 
 /-- the skeleton of h_reset.c -/
 def srvEnv : SrvEnv :=
-  { nPlugins := 2, nContexts := 4,
+  { nPlugins := 3, nContexts := 4, nCaptures := 2, resetHooks := [1, 2],
     defaults := { parseopts := 9567, maxRequestFieldSize := 8192, maxKeepAliveRequests := 100,
                   docRoot := ofString "/docroot", serverTag := ofString "ltv" } }
 
@@ -32,7 +32,8 @@ def dumpReq (e : SrvEnv) (s : ReqSt) (rc : String) : String :=
             | .authority => "auth" | .nameBuf => "buf" | .conf => "other" | .h2r _ => "h2r"
   s!"state={s.state} st={s.httpStatus} x={s.x0}:{s.x1}:{s.x2} m={s.method} v={s.version} hm={b01 s.handlerModule}" ++
   " pctx=" ++ String.join ((List.range (e.nPlugins + 1)).map fun i => b01 (pctxGet s.toReqLive i).isSome) ++
-  s!" con=1 civ={s.conValid} cc=" ++ String.intercalate "," (s.condCache.map fun c => s!"{c.result}:{c.localResult}") ++
+  s!" con=1 dst={b01 s.dstOwn} cm=" ++ String.join (s.condMatch.map fun m => match m with | .null => "n" | .own => "o" | .h2r => "h") ++
+  s!" civ={s.conValid} cc=" ++ String.intercalate "," (s.condCache.map fun c => s!"{c.result}:{c.localResult}") ++
   s!" conf={if confDef then "def" else "mod"} po={s.conf.parseopts} mrfs={s.conf.maxRequestFieldSize} srb={s.conf.streamRequestBody}" ++
   s!" qhl={s.rqstHeaderLen} qht={bitsStr s.rqstHtags} qh={hlistStr s.rqstHeaders true}" ++
   s!" usch={bufStr s.uriScheme} uauth={bufStr s.uriAuthority} upath={bufStr s.uriPath} uq={bufStr s.uriQuery}" ++
@@ -159,6 +160,9 @@ def applySpec (w : World) (tok : String) : Option World :=
     | "srb" => num.bind fun n => setR { r with conf := { r.conf with streamRequestBody := n.toNat } }
     | "h2r.po" => num.bind fun n => some { w with h2r := { w.h2r with conf := { w.h2r.conf with parseopts := n.toNat } } }
     | "h2r.civ" => num.bind fun n => some { w with h2r := { w.h2r with conValid := n.toNat } }
+    | "dst" => num.bind fun n => setR { r with dstOwn := n ≠ 0 }
+    | "cm" => num.bind fun n => setR { r with condMatch := r.condMatch.set n.toNat .own }
+    | "h2r.cm" => num.bind fun n => some { w with h2r := { w.h2r with condMatch := w.h2r.condMatch.set n.toNat .own } }
     | "h2r.sn" => some { w with h2r := { w.h2r with serverNameBuf := some (ofString "sni"), serverName := .nameBuf } }
     | _ => none
 
@@ -169,6 +173,9 @@ def runOp (op : String) (w : World) : Option ReqSt :=
   match op with
   | "none" => some w.r
   | "reset" | "conreset" => some (requestReset hdrIds e w.r)
+  | "kaend" =>
+    let r3 := requestReset hdrIds e w.r
+    some { r3 with x0 := r3.writeQueue.bytesOut, x1 := r3.readQueue.bytesIn, state := 1 }
   | "ex" => some (requestResetEx w.r)
   | "resetex" => some (requestResetEx (requestReset hdrIds e w.r))
   | "respreset" => some (responseReset hdrIds w.r)
@@ -178,7 +185,7 @@ def runOp (op : String) (w : World) : Option ReqSt :=
   | "h2init" => some (h2InitStream w.h2r 65535 (requestRelease hdrIds e w.r))
   | _ => none
 
-def opResets (op : String) : Bool := op ∈ ["reset", "conreset", "resetex", "release", "h2init"]
+def opResets (op : String) : Bool := op ∈ ["reset", "conreset", "resetex", "release", "h2init", "kaend"]
 
 def freshWorld : World := { r := ReqSt.init srvEnv, h2r := ReqSt.init srvEnv }
 
@@ -306,7 +313,7 @@ def serverLine : List String → String
       if w.skip then "skip" else
       match runOp op w with
       | none => "bad-op"
-      | some r => (if isPooled op then "same=1 " else "") ++ dumpReq srvEnv r (if opResets op then "11" else "00")
+      | some r => (if isPooled op then "same=1 " else "") ++ dumpReq srvEnv r (if opResets op then "110" else "000")
   | "rp" :: proto :: opts :: op :: rest =>
     match opts.toNat?, rest.span (· ≠ ";") with
     | some o, (specs, [_, probe]) =>
